@@ -23,7 +23,7 @@ MIN_DISTINCT = 50
 
 def plan(tier, seed):
     n = 16 if tier == "quick" else 48
-    total = 2500 if tier == "quick" else 400000
+    total = 10000 if tier == "quick" else 400000
     return [{"part": i, "parts": n, "seed": seed, "tier": tier, "count": total // n} for i in range(n)]
 
 
